@@ -481,7 +481,20 @@ fn arb_e_case() -> BoxedStrategy<Case> {
         0u8..3,
         any::<u64>(),
     )
-        .prop_map(|(subs, mut head, steps, cfg, observer, tape_seed)| {
+        .prop_map(|(subs, mut head, mut steps, cfg, observer, tape_seed)| {
+            // a third of the cases: two products gathered into one container (vector / tuple /
+            // stacked array) that is reshared or revealed as a whole
+            if tape_seed % 3 == 0 {
+                let st = |k: K, a: u16, b: u16, p: [u16; 4]| Step { k, a, b, c: 0, p };
+                steps.truncate(1);
+                steps.push(st(K::Mul, 0, 20000, [(tape_seed >> 8) as u16 % 2, 3, 0, 0]));
+                steps.push(st(K::Mul, 30000, 50000, [(tape_seed >> 12) as u16 % 2, 3, 0, 0]));
+                steps.push(match (tape_seed >> 4) % 4 {
+                    0 | 1 => st(K::MkVector, 0, 0, [2, 1, 0, 0]),
+                    2 => st(K::MkTuple, 0, 9000, [2, 0, 0, 0]),
+                    _ => st(K::Stack, 0, 9000, [1, 0, 0, 0]),
+                });
+            }
             head.extend(steps);
             Case { recipe: Recipe { subs, steps: head, out: 0, vals: vec![] }, cfg, observer, tape_seed }
         })
